@@ -154,6 +154,26 @@ UPD_FIELDS = {
 }
 
 
+def _fields_nudge_x(f):
+    """The smallest possible change of a numeric field: the next float up (an int becomes the float just above it)."""
+    import math
+
+    x = f.get("x")
+    if isinstance(x, (int, float)) and not isinstance(x, bool) and abs(x) < 1e300:
+        return {**f, "x": math.nextafter(float(x), math.inf)}
+    return dict(f)
+
+
+def _fields_scale_x(f):
+    """A change far below any 'close enough' tolerance but well above one ulp (relative 1e-11)."""
+    x = f.get("x")
+    if isinstance(x, (int, float)) and not isinstance(x, bool) and 0 < abs(x) < 1e300:
+        return {**f, "x": float(x) * (1 + 1e-11)}
+    return dict(f)
+
+
+UPD_FIELDS["fields_nudge_x"] = _fields_nudge_x
+UPD_FIELDS["fields_scale_x"] = _fields_scale_x
 UPD_FIELDS["fields_inplace_set"] = _fields_inplace_set
 UPD_FIELDS["fields_inplace_clear"] = _fields_inplace_clear
 
